@@ -442,6 +442,11 @@ var goodBodies = []string{
 	`<a href="/q{{template "ht2"}}?q={{.V}}">y</a>`,
 	`<a href="/r?a={{template "ht2"}}&amp;b={{template "ht2"}}{{.V}}">z</a>`,
 	`<div>{{template "hv" .}}</div>`,
+	// hc completes the tag name of its caller: the element is script, but known to the engine by the prefix "s" only
+	`<s{{template "hc"}}var x = 1;`,
+	// recursion after an optional element (the list of alternative element names must not grow with the depth)
+	`<ul>{{template "item" .}}</ul>`,
+	`<a href="/{{template "qn" .}}z">w</a>`,
 }
 
 // fixedHelpers are defined in every generated set. They are only reached through their callers (the generator never
@@ -456,6 +461,10 @@ var fixedHelpers = map[string]string{
 	"ht":    `1<2 &amp; a&b`,
 	"ht2":   `v2`,
 	"hv":    `{{.V}}`,
+	"hc":    `cript>`,
+	// recursion inside an attribute value in which every level joins branches that end in differently named attributes
+	"qn":   `{{if .C}}x" title="{{else}}y" alt="{{end}}{{with .Next}}{{template "qn" .}}{{end}}`,
+	"item": `{{if .V}}<li>{{.V}}</li>{{end}}{{with .Next}}{{template "item" .}}{{end}}`,
 }
 
 // NoDirect reports whether a template name must only be reached through callers.
@@ -473,6 +482,8 @@ var runtimeBadBodies = []string{
 	`<b>{{.V}}</b><div id="{{.V}}">`,
 	`x<a target="{{.V}}">`,
 	`{{.V}}<script src="{{.U}}"></script>`,
+	// a DOCTYPE ends at the first '>': the action is in a script body
+	`<!DOCTYPE html <p title="><script>{{.V}}</script>">`,
 }
 
 var badBodies = map[string][]string{
@@ -497,11 +508,13 @@ var badBodies = map[string][]string{
 	// branches that open different elements one of which is a special element, followed by markup
 	"mixed-special": {`{{if .C}}<script{{else}}<div{{end}}>1<b>{{.V}}</b></script>`, `{{if .C}}<script>{{else}}<title>{{end}}x</title>{{.V}}</script>`, `{{if .C}}<style{{else}}<p{{end}}>a<i>x</i></style>`},
 	// a name inside a tag split by a template node, then an action in that tag or element
-	"name-split":         {`<a title{{if .C}} {{end}}href="{{.U}}">x</a>`, `<s{{if .C}}cript{{end}}>{{.V}}</script>`, `<b{{if .C}} {{end}}title="{{.V}}">x</b>`, `<textarea{{if .C}} r{{end}}ows="2">a<b>{{.V}}</textarea>`, `<link re{{if .C}}l{{end}}="stylesheet" rel="icon" href="{{.U}}">`},
-	"tag-syntax":         {`<script </script>{{.V}}</script>`, `<a title={{if .C}}x{{end}} alt="{{.V}}">y</a>`, `<b title{{if .C}}/{{end}}="{{.V}}">x</b>`},
-	"predefined-escaper": {`{{.V | html | print}}`, `<a title={{.V | html}}>`},
-	"js-template":        {"<script>var a = `x</script>", "<script>`${</script>"},
-	"enum-partial":       {`<a target="x{{.V}}">`},
+	"name-split":            {`<s{{if .C}}cript{{end}}>{{template "hv" .}}</script>`, `<s{{template "hc"}}{{.V}}`, `<img{{if .C}}l{{end}}>{{.V}}`, `<a title{{if .C}} {{end}}href="{{.U}}">x</a>`, `<s{{if .C}}cript{{end}}>{{.V}}</script>`, `<b{{if .C}} {{end}}title="{{.V}}">x</b>`, `<textarea{{if .C}} r{{end}}ows="2">a<b>{{.V}}</textarea>`, `<link re{{if .C}}l{{end}}="stylesheet" rel="icon" href="{{.U}}">`},
+	"range-reentry-rewrite": {`<a title="{{range .L}}{{.V}}" href="{{end}}">x</a>`, `<p>{{range .L}}{{.V}}<script>{{else}}<script>{{end}}</script>`, `<p {{range .L}}title="{{.V}}"><p{{end}}>`, `<a href="/p/{{range .L}}{{.V}}?x={{end}}">y</a>`},
+	"recursion-open-name":   {`{{define "rn"}}{{if .Next}}{{template "rn" .Next}}title="{{.V}}"{{end}}><a{{end}}|||<a {{template "rn" .}} >`},
+	"tag-syntax":            {`<script </script>{{.V}}</script>`, `<a title={{if .C}}x{{end}} alt="{{.V}}">y</a>`, `<b title{{if .C}}/{{end}}="{{.V}}">x</b>`},
+	"predefined-escaper":    {`{{.V | html | print}}`, `<a title={{.V | html}}>`},
+	"js-template":           {"<script>var a = `x</script>", "<script>`${</script>"},
+	"enum-partial":          {`<a target="x{{.V}}">`},
 }
 
 // BadCategories lists the categories (deterministic order).
@@ -550,6 +563,7 @@ type Options struct {
 	NoRedefine   bool // definition ops only introduce fresh names (x1, x2)
 	AttrHelpers  bool // helpers may be written for attribute contexts (derived copies), each used in one context class only
 	Unbalanced   bool // helpers that end in another context than they start in, with callers that complete them
+	Emptied      bool // a helper that is only a comment in a branch (its text node is emptied when it is executed on its own) and a caller that needs it inside a tag (C08 only: the later result depends on the order, K-rederive)
 	CSP          bool // sometimes a CSP-compatible set, and members with inline handlers / javascript: URLs
 	Markers      bool // untrusted data values carry the marker zQ<n>x at both ends (C02 location oracle)
 }
@@ -614,6 +628,12 @@ func Gen(t *rapid.T, o Options) *History {
 		}
 		add(name, body)
 		g.helpers = append(g.helpers, name+":"+ctx)
+	}
+	if o.Emptied {
+		add("hn", `{{if .C}}<!-- c -->{{end}}`)
+		add("e0", `<a title{{template "hn" .}}="x">y</a>`)
+		add("e1", `<p>{{template "hn" .}}</p>`)
+		g.flagf("emptied-text-node")
 	}
 	if o.Unbalanced {
 		var ks []string
@@ -745,7 +765,16 @@ func Gen(t *rapid.T, o Options) *History {
 			g.nsets++
 		case k <= 17 && (o.ParseAfter || !executed[set]):
 			// (re)definition: a new member, or a redefinition of a helper with a different context need
-			name := g.pick("defname", append(append([]string{}, names...), "x1", "x2"))
+			// (helpers that callers need in a non-text context are not redefined: a redefinition with an action in
+			// it, executed on its own and then needed by such a caller, is the K-rederive zone, which only the
+			// "mixed" sub-search of C06 enters)
+			var redef []string
+			for _, n := range names {
+				if _, unb := unbalancedHelpers[n]; !unb && !NoDirect(n) {
+					redef = append(redef, n)
+				}
+			}
+			name := g.pick("defname", append(redef, "x1", "x2"))
 			if o.NoRedefine {
 				name = g.pick("freshname", []string{"x1", "x2"})
 			}
